@@ -19,3 +19,53 @@ pub fn revision_as_usize(revision: Revision) -> usize {
 pub fn ingredient_index_from_u32(index: u32) -> IngredientIndex {
     IngredientIndex::new(index)
 }
+
+// ---------------------------------------------------------------------------------------------
+// Protocol trace of the claim / wait / transfer machinery (dependency graph + sync table).
+//
+// A plain `std::sync::Mutex` (never one of the managed primitives of `crate::sync`), so that
+// tracing adds no scheduling points. Recording is off until `trace_enable(true)`.
+
+/// One operation of the waiting protocol. Threads and query keys are rendered with `Debug`.
+#[derive(Clone, Debug, PartialEq, Eq)]
+pub enum TraceOp {
+    /// `from` starts waiting for `key`, currently computed by `to`
+    AddEdge { by: String, from: String, to: String, key: String },
+    /// the edge of the waiting thread `thread` was re-pointed to `to` (lock transfer)
+    Repoint { by: String, thread: String, to: String },
+    /// `thread` is woken with `result` (Completed / Panicked / Cancelled)
+    Unblock { by: String, thread: String, result: String },
+    /// `thread` returned from its wait with `result`
+    Resumed { thread: String, result: String },
+    /// the owner of `key` releases its claim with `result`
+    Release { by: String, key: String, result: String },
+    /// ownership of `query` moves to `new_owner` (owned by thread `new_owner_thread`)
+    Transfer { by: String, query: String, new_owner: String, new_owner_thread: String },
+}
+
+static TRACE_ON: std::sync::atomic::AtomicBool = std::sync::atomic::AtomicBool::new(false);
+static TRACE: std::sync::Mutex<Vec<TraceOp>> = std::sync::Mutex::new(Vec::new());
+
+pub fn trace_enable(on: bool) {
+    TRACE_ON.store(on, std::sync::atomic::Ordering::SeqCst);
+}
+
+pub fn take_trace() -> Vec<TraceOp> {
+    std::mem::take(&mut *TRACE.lock().unwrap_or_else(|e| e.into_inner()))
+}
+
+#[inline]
+pub(crate) fn trace(op: impl FnOnce() -> TraceOp) {
+    if TRACE_ON.load(std::sync::atomic::Ordering::SeqCst) {
+        TRACE.lock().unwrap_or_else(|e| e.into_inner()).push(op());
+    }
+}
+
+pub(crate) fn me() -> String {
+    format!("{:?}", crate::sync::thread::current().id())
+}
+
+/// Raw rendering of a query key (does not consult the attached database).
+pub(crate) fn key(k: crate::DatabaseKeyIndex) -> String {
+    format!("{}:{:#x}", k.ingredient_index().as_u32(), k.key_index().as_bits())
+}
